@@ -4,7 +4,11 @@ import json, os, re, shutil, subprocess, sys, time, hashlib
 
 VERIF = os.path.dirname(os.path.dirname(os.path.abspath(__file__)))
 SPEC = os.path.join(VERIF, "spec")
-OUT = os.path.join(VERIF, "out")
+BASE_OUT = os.path.join(VERIF, "out")
+# transient files of this process (concurrent runs of checks never share them); violation files stay under out/violations
+OUT = os.path.join(BASE_OUT, f"w{os.getpid()}")
+import atexit
+atexit.register(lambda: shutil.rmtree(OUT, ignore_errors=True))
 HARNESS = os.path.join(VERIF, "harness")
 REPO = os.environ.get("VERIF_REPO", "/repo")
 NCPU = 16
@@ -77,7 +81,7 @@ def build_harness(profile="chk", features=None):
         open(p, "w").write(tmpl)
     env = dict(os.environ, CARGO_NET_OFFLINE="true", RUSTFLAGS=os.environ.get("RUSTFLAGS", ""))
     if REPO != "/repo":
-        env["CARGO_TARGET_DIR"] = os.path.join(OUT, "target-scratch")      # scratch copies share compiled dependencies
+        env["CARGO_TARGET_DIR"] = os.path.join(BASE_OUT, "target-scratch")      # scratch copies share compiled dependencies
     cmd = ["cargo", "build", "--offline", "--profile", profile]
     tdir = "target"
     if features is not None:
@@ -90,7 +94,7 @@ def build_harness(profile="chk", features=None):
     elif REPO != "/repo" and features is None:
         # copy the binary out of the shared scratch target so that a later scratch build cannot replace it under a running check
         dst = os.path.join(d, f"tzverif-{profile}")
-        shutil.copy(os.path.join(OUT, "target-scratch", profile, "tzverif"), dst)
+        shutil.copy(os.path.join(BASE_OUT, "target-scratch", profile, "tzverif"), dst)
         res = (dst, "")
     else:
         res = (os.path.join(d, tdir, profile, "tzverif"), "")
@@ -298,7 +302,8 @@ class Result:
         self.pid, self.tier, self.seed, self.level = pid, tier, seed, level
         self.t0 = time.time()
         import glob
-        for f in glob.glob(os.path.join(OUT, "violations", f"{pid}-*.json")):
+        os.makedirs(OUT, exist_ok=True)
+        for f in glob.glob(os.path.join(BASE_OUT, "violations", f"{pid}-*.json")):
             os.remove(f)
         self.mc = []            # model-checking runs
         self.vectors = 0        # spec -> impl vectors replayed
@@ -318,7 +323,7 @@ class Result:
         self.violations.append(dict(tag=tag, event=event, extra=extra))
 
     def finish(self, extra_cov=None):
-        os.makedirs(os.path.join(OUT, "violations"), exist_ok=True)
+        os.makedirs(os.path.join(BASE_OUT, "violations"), exist_ok=True)
         known = load_known()
         nviol = 0
         printed_known = set()
@@ -333,7 +338,7 @@ class Result:
                 continue
             nviol += 1
             if k < 20:
-                path = os.path.join(OUT, "violations", f"{self.pid}-{k}.json")
+                path = os.path.join(BASE_OUT, "violations", f"{self.pid}-{k}.json")
                 json.dump(dict(property=self.pid, tier=self.tier, seed=self.seed, **v), open(path, "w"), indent=1)
                 print(f"VIOLATION property={self.pid} replay={path}")
                 k += 1
@@ -410,10 +415,19 @@ def run_pipeline(res, binary, name, gen_lines=None, vec_path=None, nshards=8, va
             if tag == "generator-error":
                 raise ToolError(f"generator produced an unusable event: {line[:400]}")
             res.violation(tag, strip(e), dict(index=idx, zone_tags=ztags, context=strip(json.loads(zline)) if zline else None))
-    if len(res.samples) < 5:
+    if len(res.samples) < 6:
+        # actual cases of this run: the first event and the first event that is not a zone-setting one
         with open(outp) as f:
-            first = f.readline()
-            res.samples.append(strip(json.loads(first)))
+            took = 0
+            for i, ln in enumerate(f):
+                if i > 400 or took >= 2:
+                    break
+                if len(ln) > 6000:
+                    continue
+                e = json.loads(ln)
+                if took == 0 or e["op"] not in ("zone", "tzif", "resolve", "fixedzone"):
+                    res.samples.append(strip(e))
+                    took += 1
     if gen_lines is not None:
         os.remove(inp)
     os.remove(outp)
